@@ -75,7 +75,7 @@ func perturbsFor(v Variant) (quote []string, direct []string) {
 	case "icmp":
 		return []string{"qdst", "qsrc", "id", "seqHi", "bump", "foreign", "qtype"}, []string{"id", "seqHi", "bump"}
 	case "udp":
-		q := []string{"qdst", "qdport", "ipidHi", "bump", "foreign"}
+		q := []string{"qdst", "qdport", "ipidHi", "ipidSwap", "bump", "foreign"}
 		if v.V6 {
 			q = []string{"qdst", "qdport", "v6len", "bump", "foreign"}
 		}
@@ -84,7 +84,7 @@ func perturbsFor(v Variant) (quote []string, direct []string) {
 		}
 		return q, nil
 	case "tcp":
-		q := []string{"qdst", "qdport", "ipidHi", "qseq", "bump", "foreign"}
+		q := []string{"qdst", "qdport", "ipidHi", "ipidSwap", "qseq", "bump", "foreign"}
 		if !v.Loosen {
 			q = append(q, "qsrc", "qsport")
 		}
@@ -179,6 +179,11 @@ func genWireRun(rng *rand.Rand, o *wireOpts, fi int, actor string) *wireRun {
 	}
 	if v.Entry == "sack" {
 		wr.lis = &sim.Listener{Addr: c.Target, Port: c.Port, Permitted: true, Timestamps: chance(rng, 0.5), ISN: pick(rng, rng.Uint32(), 0, 1, 0xffffff00+uint32(rng.IntN(256)), 0xffffffff, 0x7fffffff, -uint32(between(rng, 1, 8)), -uint32(between(rng, 1, 8))), ServerSeq: rng.Uint32(), OptLayout: pick(rng, "", "", "bsd", "win", "tsfirst", "sacklast")}
+		if grng := rand.New(rand.NewPCG(uint64(c.Port)*7919+uint64(c.MaxTTL), uint64(wr.lis.ISN))); chance(grng, 0.15) {
+			// a target that sent a banner of its own before the capture filter followed the connection:
+			// its later segments carry an advanced sequence number
+			wr.lis.GreetingLen = between(grng, 1, 80)
+		}
 		if !o.wrapBases && chance(rng, 0.5) {
 			wr.lis.ISN = rng.Uint32()
 		}
